@@ -360,6 +360,7 @@ public:
       outside("unknown binop");
       return;
     }
+    if (too_big(r)) { outside("value beyond 2^1024"); return; }
     st->num[s.lhs()] = r;
   }
   // w-bit semantics (LLVM): operands are the signed values of w-bit vectors
@@ -412,7 +413,17 @@ public:
     }
     st->num[s.lhs()] = wrapv(r, s.lhs());
   }
-  void visit(assign_t &s) override { st->num[s.lhs()] = wrapv(eval(s.rhs()), s.lhs()); }
+  void visit(assign_t &s) override {
+    z_number r = eval(s.rhs());
+    if (too_big(r)) { outside("value beyond 2^1024"); return; }
+    st->num[s.lhs()] = wrapv(r, s.lhs());
+  }
+  // repeated squaring in a loop doubles the size of a value at every step: such executions
+  // leave the model (nothing is judged beyond) instead of exhausting the memory
+  static bool too_big(const z_number &v) {
+    static const z_number lim = z_number(1) << z_number((int64_t)1024);
+    return v > lim || v < z_number(0) - lim;
+  }
   void visit(assume_t &s) override {
     bool h = holds(s.constraint());
     if (obs)
